@@ -46,7 +46,8 @@ def check(run):
     run.obligation("encode correspondence: model bytes = dagcbor.Encode bytes, and model decode = canon, on every generated value", enc_ok)
     run.obligation("decode correspondence: model = dagcbor.Decode (accept/reject + value) on every mutated input in the domain", dec_ok)
     gp = stats.get("go_problems") or []
-    run.obligation("implementation-side round trip: Decode(Encode(v)) re-encodes to the same bytes; no decoder panic", not gp)
+    run.obligation("implementation side: Decode(Encode(v)) re-encodes to the same bytes; no decoder panic; go-ucanto's "
+                   "core/ipld/codec/cbor Encode/Decode (bindnode, [Any]) agree with the direct dagcbor path on every case", not gp)
     for p in gp[:3]:
         run.violation("cbor-go-roundtrip", p, dict(problem=p))
     if (not enc_ok or not dec_ok) and not run.violations:
@@ -63,7 +64,7 @@ def check(run):
                         "implementation accepts; %d decode inputs were outside the model's domain (floats) and only checked for "
                         "consistency (model Unsup => implementation decoded a float or rejected)" % unsup,
                    samples=stats["samples"], values=stats["values"], decode_inputs=stats["decode_inputs"],
-                   decode_inputs_outside_domain=unsup,
+                   decode_inputs_outside_domain=unsup, repo_path_checks=stats.get('repo_path_checks', 0),
                    kind_histogram=stats["kind_histogram"], depth_histogram=stats["depth_histogram"],
                    encoded_size_histogram=stats["encoded_size_histogram"], int_classes=stats["int_classes"],
                    link_kinds=stats["link_kinds"], maps_total=stats["maps_total"],
